@@ -149,6 +149,23 @@ def judge_push(pm):
         return 'wrong', 'the key is the empty range (%s, %s)' % (A, B), t
     if okA and B in before:
         return 'wrong', 'the key ends at a length taken before the append (%s)' % B, t
+    # what the end of the key derives from: only the text length before the append and the appended text may enter
+    deps = {}
+    for n in sx.walk(pm['body']):
+        if n.get('k') == 'let' and n.get('pat', {}).get('k') == 'ident' and 'init' in n:
+            deps.setdefault(n['pat']['n'], set()).update(x['p'] for x in sx.walk(n['init']) if x.get('k') == 'path')
+    roots = {x['p'] for x in sx.walk(keys[0]['args'][1]) if x.get('k') == 'path'}
+    changed = True
+    while changed:
+        changed = False
+        for v in list(roots):
+            if v in deps and not deps[v] <= roots:
+                roots |= deps[v]
+                changed = True
+    foreign = sorted(r_ for r_ in roots if r_ in pn and r_ != t)
+    if foreign:
+        return 'wrong', ('the end of the key (%s) depends on the parameter `%s`, not only on the length of the appended text: the recorded segment can be shorter '
+                         '(bytes without origin) or longer (overlap with the next segment) than the text that was appended' % (B, foreign[0])), t
     return 'undecided', 'key Range::new(%s, %s) is not in a recognised form' % (A, B), t
 
 
